@@ -1469,6 +1469,24 @@ theorem derive_plain_add (a : UAxis) (xs : List Int) (t : C01.TVal) (hl : xs.len
     subst h
     exact ⟨rfl, rfl, rfl, e, hc⟩
 
+/-- `axis * k`, `k * axis`, `-axis` (k = −1) as NEW objects: `k = 0` is refused; otherwise a uniform axis whose sample `i` is
+`k · t_i`, interval `k · Δ` (a negative factor reverses the direction, as `__imul__` does), duration `n` intervals -/
+theorem derive_mul_spec (a : UAxis) (k : Int) :
+    (k = 0 → a.derive (.mul k) = .error .valueError) ∧
+    (k ≠ 0 → ∃ b, a.derive (.mul k) = .ok (.uaxis b) ∧ (∀ i, b.sample i = a.sample i * k) ∧ b.dt = a.dt * k ∧
+      b.n = a.n ∧ b.unit = a.unit ∧ b.dur = (b.n : Int) * b.dt ∧ (0 < a.dt → k < 0 → b.dt < 0)) := by
+  constructor
+  · intro hk; subst hk; rfl
+  · intro hk
+    refine ⟨a.reset (a.t0 * k) (a.dt * k), ?_, ?_, rfl, rfl, rfl, rfl, ?_⟩
+    · simp [UAxis.derive, UChange.apply, scaled, hk]
+    · intro i; simp only [sample, reset]; ring
+    · intro h1 h2; simp only [reset]; exact Int.mul_neg_of_pos_of_neg h1 h2
+
+example : (⟨2, 2, 4, 8, .ms⟩ : UAxis).derive (.mul 2) = .ok (.uaxis ⟨4, 4, 4, 16, .ms⟩) ∧
+    (⟨2, 2, 4, 8, .ms⟩ : UAxis).derive (.mul (-1)) = .ok (.uaxis ⟨-2, -2, 4, -8, .ms⟩) ∧
+    (⟨4, 4, 4, 16, .ms⟩ : UAxis).indexAt [8] = .ok [1] ∧ (⟨-2, -2, 4, -8, .ms⟩ : UAxis).indexAt [-4] = .ok [1] := by decide
+
 example : (⟨0, 2, 4, 8, .ms⟩ : UAxis).derive (.add [5] true) = .ok (.uaxis ⟨5, 2, 4, 8, .ms⟩) ∧
     (⟨0, 2, 4, 8, .ms⟩ : UAxis).derive (.rsub [5] true) = .ok (.uaxis ⟨5, -2, 4, -8, .ms⟩) ∧
     (⟨0, 2, 4, 8, .ms⟩ : UAxis).derive (.add [0, 1, 5, 3] false) = .ok (.tarray ⟨[0, 3, 9, 9], .ms, false⟩) ∧
